@@ -48,6 +48,8 @@ let show l = String.concat " " (List.map string_of_n l)
 let dispatch model cfg evs obs =
   match model with
   | "pure" -> run_check_pure cfg evs obs
+  | "rwmutex" -> run_check_rwmutex cfg evs obs
+  | "mutex" -> run_check_mutex cfg evs obs
   | _ -> failwith ("unknown model " ^ model)
 
 let () =
